@@ -23,6 +23,7 @@ mod c14;
 mod pki;
 mod c01;
 mod c02;
+mod c10;
 
 use std::io::{BufRead, Write};
 
@@ -76,6 +77,7 @@ fn lookup(id: &str) -> Option<(&'static str, Gen, Exec)> {
         "C14" => Some(("C14", c14::generate, c14::exec)),
         "C01" => Some(("C01", c01::generate, c01::exec)),
         "C02" => Some(("C02", c02::generate, c02::exec)),
+        "C10" => Some(("C10", c10::generate, c10::exec)),
         _ => None,
     }
 }
